@@ -60,8 +60,7 @@ def h10(S, max_m=2, extra_max=2, queues=1, max_limit=3, dmax_us=2000, zero=False
             j = Job("job_" + qn, queue=qn, args={"i": i}, id_=f"m{i}", retries=1, deferred_by=real_timedelta(hours=1) if periodic else None,
                     store_result=bool(report_error and i == 0), _connection=w.conn)
             if late_by and i % queues == 1:
-                later.append(j)
-                before[f"m{i}"] = j._construct_parameters() if hasattr(j, "_construct_parameters") else None
+                later.append((i, j))
                 continue
             key, _, params = await j.enqueue()
             before[f"m{i}"] = params
@@ -77,15 +76,15 @@ def h10(S, max_m=2, extra_max=2, queues=1, max_limit=3, dmax_us=2000, zero=False
             prev_hook = loop.iter_hook
 
             async def publish_later():
-                for j in later:
+                for i_, j in later:
                     _, _, p = await j.enqueue()
-                    before[f"m{j.args['i']}"] = p
+                    before[f"m{i_}"] = p
 
             def hook(lp):
                 if prev_hook is not None:
                     prev_hook(lp)
                 if lp.iters == base + late_by:
-                    asyncio.ensure_future(publish_later())
+                    out["late_task"] = asyncio.ensure_future(publish_later())
 
             loop.iter_hook = hook
         worker = Worker(routers=[r], handle_signals=[], _connection=w.conn, graceful_shutdown_time=1.0,
@@ -106,6 +105,10 @@ def h10(S, max_m=2, extra_max=2, queues=1, max_limit=3, dmax_us=2000, zero=False
             out["places"].update(w.places(qn))
         out["before"] = before
         out["calls"] = list(w.rec.calls)
+        lt = out.pop("late_task", None)
+        out["late_publish"] = None if lt is None else ("pending" if not lt.done() else repr(lt.exception()))
+        out["snapshot"] = (out["late_publish"], w.srv.snapshot(), [(x[0], getattr(x[2].props, "message_id", None)) for x in w.srv.dropped],
+                           [getattr(getattr(m, "props", None), "message_id", None) for m in w.srv.published][-8:]) if backend == "rabbit" else None
 
     try:
         run_async(main)
@@ -125,7 +128,7 @@ def h10(S, max_m=2, extra_max=2, queues=1, max_limit=3, dmax_us=2000, zero=False
             S.tag("left_in_flight", "never-executed")
             handed = any(e[0] == "handed-to-runner" and e[1] == f"m{i}" for e in out["consumer_log"])
             S.tag("stuck_message_reached_the_runner", handed)
-        S.check("unprocessed-message-still-waiting", names == ["waiting"], info=f"m{i}: {names}")
+        S.check("unprocessed-message-still-waiting", names == ["waiting"], info=f"m{i}: {names}" + (f" server: {out['snapshot']}" if out.get("snapshot") else ""))
         if names == ["waiting"]:
             msg = out["places"][f"m{i}"][0][1]
             S.check("unprocessed-message-untouched", msg.parameters == out["before"][f"m{i}"])
